@@ -17,6 +17,7 @@
 (*   NoViolation the judge accepts the code's result (violated by the      *)
 (*               seeded BUG configurations: the monitors can fail).        *)
 (* A state is (fn, x); the invariants quantify over the second operand.    *)
+(* (Initial states are work units, see Init.)                              *)
 (***************************************************************************)
 EXTENDS WadOps, TLC
 
@@ -187,16 +188,19 @@ Cands(f, a, b) ==
   ({Impl(f, a, b), Err, 0, MinN, MaxN} \cup (IF v = Err THEN {} ELSE {v, v + 1, v - 1, -v}))
   \cap (Range \cup {Err})
 
-Init == fn \in Fns /\ x \in Range
-Next == UNCHANGED vars
+\* initial states are work units (operation, residue class of x) so that TLC's workers share the load
+Blocks == 8
+Init == fn \in Fns /\ x \in {Err + k : k \in 0..(Blocks - 1)}
+Next == x >= Err /\ fn' = fn /\ x' \in {v \in Range : v % Blocks = x - Err}
+Live == x < Err
 
-Correct == \A y \in Second(fn) : Envelope(fn, x, y, Impl(fn, x, y))
-ClassKnown == \A y \in Second(fn) : NClass(fn, x, y) \in ReachableClasses
-NoViolation == \A y \in Second(fn) : Failing(Ev(fn, x, y, Impl(fn, x, y))) = {}
+Correct == Live => \A y \in Second(fn) : Envelope(fn, x, y, Impl(fn, x, y))
+ClassKnown == Live => \A y \in Second(fn) : NClass(fn, x, y) \in ReachableClasses
+NoViolation == Live => \A y \in Second(fn) : Failing(Ev(fn, x, y, Impl(fn, x, y))) = {}
 JudgeExact ==
-  \A y \in Second(fn) : \A r \in Cands(fn, x, y) :
+  Live => \A y \in Second(fn) : \A r \in Cands(fn, x, y) :
     \A j \in {Judge(Ev(fn, x, y, r))} : ~j.badw /\ ((j.fail = {}) <=> Envelope(fn, x, y, r))
-ClassAgrees == \A y \in Second(fn) : Judge(Ev(fn, x, y, Impl(fn, x, y))).cls = NClass(fn, x, y)
+ClassAgrees == Live => \A y \in Second(fn) : Judge(Ev(fn, x, y, Impl(fn, x, y))).cls = NClass(fn, x, y)
 \* every class occurs at this scale (evaluated in one state only: it enumerates all cases)
 ClassesReached ==
   (fn = "abs" /\ x = 0) =>
